@@ -1,6 +1,6 @@
 ifilter = filter
 
-from re import finditer, compile, escape
+from re import finditer, compile, escape, DOTALL
 from functools import partial
 from operator import eq as equals_to
 
@@ -25,7 +25,7 @@ class Any:
         if endswith is not None:
             self.regexp += escape(endswith)
 
-        self.regexp = compile(self.regexp)
+        self.regexp = compile(self.regexp, DOTALL)
         self.__eq__ = self.eq_for_regexp
         self.__ne__ = self.ne_for_regexp
 
@@ -48,10 +48,12 @@ class Any:
         return False
 
     def eq_for_regexp(self, other):
-        return bool(self.regexp.search(other))
+        # the whole field must match: 'startswith' is anchored at its begin
+        # and 'endswith' at its end (the regexp has '.*' on the open sides)
+        return bool(self.regexp.fullmatch(other))
 
     def ne_for_regexp(self, other):
-        return not bool(self.regexp.search(other))
+        return not bool(self.regexp.fullmatch(other))
 
 
 def anything_like(pkt_class):
